@@ -975,4 +975,189 @@ def rule_inplace(ctx) -> RuleResult:
     return res
 
 
-RULES = [rule_w1, rule_w2, rule_w3, rule_w4, rule_spec, rule_inplace]
+def _domain_setters(ctx):
+    """(class it was resolved on, attribute, setter) for every distinct setter function of the property's domain."""
+    eng = engine(ctx)
+    seen = set()
+    for K in families(ctx):
+        comp = component_domain(K)
+        dom = comp if comp is not None else eng.domain(K)
+        dom_all = set(dom) | (derived_props(ctx, K, dom) if comp is None else set())
+        for attr in sorted(dom_all):
+            m = K.lookup(attr)
+            if not m or m[1] != "prop" or m[2].setter is None or m[2].setter in seen:
+                continue
+            seen.add(m[2].setter)
+            yield K, attr, m[2].setter
+
+
+def rule_skip(ctx) -> RuleResult:
+    res = RuleResult(
+        "C03.SKIP",
+        "C03",
+        "the only assigned value that may make the setter of a persisted attribute do nothing is None: no condition on the "
+        "assigned value, other than `is None`, decides between a path that stores / delegates / persists and a normal "
+        "path that does none of these (a silently ignored value stays neither in memory nor on file) — conditions on "
+        "the entity's own state, and comparisons of the value with that state, are not concerned",
+        floor=70,
+    )
+    eng = engine(ctx)
+    for K, attr, setter in _domain_setters(ctx):
+        if len(setter.params) < 2 or _is_noop_by_design(setter):
+            continue
+        val = setter.params[1]
+        sn = setter.self_name or "self"
+        g = CFG(_with_expanded_tests(eng.norm_node(setter)))
+        aliases = eng._aliases(setter, K)
+        pf = eng.persisted_fields(K)
+
+        def effect(n, setter=setter, K=K, aliases=aliases):
+            if n.kind in ("entry", "exit", "rexit", "withexit", "break", "continue", "def", "except") or n.ast is None or isinstance(n.ast, list):
+                return False
+            # resetting a cache (`self._centroids = None`) is not taking the value in
+            return any(ev[0] != "store" or ev[1] != "self" or ev[2] in pf for ev in eng.events(setter, K, n.ast, aliases))
+
+        facts = {"notnone:" + val: True}
+        quiet = reach(g, [g.entry], val, facts, avoid=effect)  # reachable without any effect, the value not being None
+        culprit = None
+        if g.exit in quiet:
+            for n in g.nodes:
+                if n not in quiet or n.kind != "test":
+                    continue
+                names = {x.id for x in ast.walk(n.ast) if isinstance(x, ast.Name)}
+                if val not in names or sn in names:
+                    continue  # decided by the entity's state (or by the value against that state), not by the value alone
+                if tv(n.ast, val, facts) is not None:
+                    continue  # the `is None` idiom itself
+                outs = {lab: m for m, lab in n.succ if lab in ("true", "false")}
+                if len(outs) != 2:
+                    continue
+                silent = {lab: g.exit in reach(g, [m], val, facts, avoid=effect) for lab, m in outs.items()}
+                acts = {lab: any(effect(x) for x in reach(g, [m], val, facts)) for lab, m in outs.items()}
+                if any(silent[a] and acts[b] and not silent[b] for a, b in (("true", "false"), ("false", "true"))):
+                    culprit = n
+                    break
+        res.inst(f"{setter.qualname}: no value other than None is silently ignored", nontrivial=True, ok=culprit is None)
+        if culprit is not None:
+            res.find(setter.cls.name, attr, "a value other than None makes the setter do nothing", setter.where,
+                     f"the condition at line {culprit.lineno} depends on the assigned value and one of its branches returns normally "
+                     "without storing, delegating or persisting while the other does: some valid value is accepted and dropped "
+                     "(memory and file keep the previous value)", line=culprit.lineno, resolved_on=K.name)
+    return res
+
+
+def _root_name(e):
+    """The local an access path starts from: h[k].get(x).create_group(y) -> h."""
+    while True:
+        if isinstance(e, (ast.Subscript, ast.Attribute)):
+            e = e.value
+        elif isinstance(e, ast.Call) and isinstance(e.func, ast.Attribute):
+            e = e.func.value
+        else:
+            return e.id if isinstance(e, ast.Name) else None
+
+
+def _handle_locals(fn_node, handles) -> set:
+    """Locals that denote the entity's HDF5 node or something reached from it (sub-groups, whatever they are called)."""
+    derived = set(handles)
+    changed = True
+    while changed:
+        changed = False
+        for n in ast.walk(fn_node):
+            if isinstance(n, (ast.Assign, ast.AnnAssign)) and n.value is not None:
+                tgs = n.targets if isinstance(n, ast.Assign) else [n.target]
+                carried = []  # a record / tuple built around the node: DatasetTarget(handle, name), (handle, name)
+                if isinstance(n.value, ast.Call):
+                    carried = list(n.value.args) + [k.value for k in n.value.keywords]
+                elif isinstance(n.value, (ast.Tuple, ast.List)):
+                    carried = list(n.value.elts)
+                if _root_name(n.value) in derived or any(isinstance(a, ast.Name) and a.id in derived for a in carried):
+                    for t in tgs:
+                        names = [t] if isinstance(t, ast.Name) else (list(t.elts) if isinstance(t, (ast.Tuple, ast.List)) else [])
+                        for nm in names:
+                            if isinstance(nm, ast.Name) and nm.id not in derived:
+                                derived.add(nm.id)
+                                changed = True
+    return derived
+
+
+def _removals(x, derived):
+    """(handle expr, key expr) pairs a statement removes from the file: `del h[k]`, `h.pop(k, ...)`, `h.__delitem__(k)`."""
+    out = []
+    if isinstance(x, ast.Delete):
+        out = [(t.value, t.slice) for t in x.targets if isinstance(t, ast.Subscript)]
+    elif isinstance(x, (ast.Expr, ast.Assign)) and isinstance(x.value, ast.Call) and isinstance(x.value.func, ast.Attribute) \
+            and x.value.func.attr in ("pop", "__delitem__") and x.value.args:
+        out = [(x.value.func.value, x.value.args[0])]
+    return [(h, k) for h, k in out if _root_name(h) in derived]
+
+
+def rule_reset(ctx) -> RuleResult:
+    res = RuleResult(
+        "C03.RESET",
+        "C03",
+        "every dataset writer the dispatcher routes to (and the concatenated-field writer) addresses the stored dataset — "
+        "deletes it, or tests its presence in order to delete it — on every normal path on which the entity's node is "
+        "found, i.e. before it decides whether there is a new value to write: assigning None / an emptied attribute must "
+        "not leave the previous dataset for the next reader",
+        floor=5,
+    )
+    from ..roles import bound_from, is_call_to
+
+    t = engine(ctx).t
+    handlers = sorted({h for h in t.routes.values() if h in t.writer.methods}) + ["update_concatenated_field"]
+    for h in handlers:
+        fn0 = t.writer.methods.get(h)
+        if fn0 is None:
+            raise AnalysisError(f"anchor H5Writer.{h} not found")
+        v = ctx.view(fn0)
+        node = _with_expanded_tests(v.node)
+        defs = single_assignments(node)
+        g = CFG(node)
+        handles = sorted(bound_from(node, lambda e: is_call_to(e, "fetch_handle")))
+        if not handles:
+            raise AnalysisError(f"H5Writer.{h}: the entity's node is not obtained through fetch_handle (anchor moved)")
+
+        def X(e):
+            return unparse(expanded(e, node, defs))
+
+        derived = _handle_locals(node, handles)
+        deleted = set()  # (handle text, key text) of every removal from the entity's node
+        for x in ast.walk(node):
+            for hx, kx in _removals(x, derived):
+                deleted.add((X(hx), X(kx)))
+
+        def is_delete(n):
+            return n.kind == "stmt" and bool(_removals(n.ast, derived))
+
+        def presence_test(n):
+            """`<key> in <handle>` (or its negation) for a (handle, key) the function deletes, every path of the 'present'
+            branch reaching the deletion"""
+            if n.kind != "test":
+                return False
+            e, neg = n.ast, False
+            while isinstance(e, ast.UnaryOp) and isinstance(e.op, ast.Not):
+                e, neg = e.operand, not neg
+            if not (isinstance(e, ast.Compare) and len(e.ops) == 1 and isinstance(e.ops[0], (ast.In, ast.NotIn))):
+                return False
+            if (X(e.comparators[0]), X(e.left)) not in deleted:
+                return False
+            present = "true" if (isinstance(e.ops[0], ast.In) != neg) else "false"
+            starts = [m for m, lab in n.succ if lab == present]
+            return bool(starts) and g.exit not in reach(g, starts, avoid=is_delete)
+
+        def addresses_old(n):
+            return is_delete(n) or presence_test(n)
+
+        facts = {"notnone:" + nm: True for nm in handles}
+        facts.update({"notnone:" + X(ast.Name(id=nm, ctx=ast.Load())): True for nm in handles})  # the conditions are alias-expanded
+        ok = bool(deleted) and g.exit not in reach(g, [g.entry], handles[0], facts, avoid=addresses_old)
+        res.inst(f"H5Writer.{h}: the stored dataset is removed on every path that finds the entity", nontrivial=True, ok=ok)
+        if not ok:
+            res.find("H5Writer", h, "a normal path leaves the stored dataset in place", fn0.where,
+                     "some path on which the entity's node is found returns without deleting the dataset it would rewrite "
+                     "(typically: the 'nothing to write' test comes first): assigning None leaves the old content on file")
+    return res
+
+
+RULES = [rule_w1, rule_w2, rule_w3, rule_w4, rule_spec, rule_inplace, rule_skip, rule_reset]
